@@ -256,6 +256,14 @@ def r16_3(ctx: Ctx):
             obs.append(ctx.ob("R16.3", f, rels[0][1].ast, detail=f"refusing path guarded by {counter} {rels[0][0]} {cutoff}", construct="guard"))
         # sentinel
         v = s.ret_node.value if isinstance(s.ret_node, ast.Return) else None
+        hops = 0
+        while isinstance(v, ast.Name) and hops < 3:
+            # a local returned at the end: the value it was given last ON THIS PATH
+            last = [n_.ast for n_ in s.nodes if n_.ast is not None and isinstance(n_.ast, ast.Assign) and len(n_.ast.targets) == 1 and isinstance(n_.ast.targets[0], ast.Name) and n_.ast.targets[0].id == v.id]
+            if not last:
+                break
+            v = last[-1].value
+            hops += 1
         pol = _sentinel_polarity(v, selfn)
         if pol == "ok":
             obs.append(ctx.ob("R16.3", f, s.ret_node, detail="returns -inf when maximising, +inf when minimising", construct="sentinel"))
